@@ -22,7 +22,7 @@ TOGGLES = [
     "alias_scalars", "component_parameters", "component_bodies", "component_responses", "path_item_parameters",
     "same_name_two_locations", "multi_body", "multipart", "form", "octet", "text_responses", "plus_json",
     "no_content", "security", "tags", "defaults", "descriptions", "query_arrays", "header_params",
-    "cookie_params", "shared_paths", "inline_response_objects", "shuffle_decl", "media_type_params", "item_level_name_clash", "multi_media_responses", "wrapped_refs", "rich_form_fields", "reserved_param_names", "python_name_clash", "noise_responses", "trailing_slash_paths", "prefix_names", "inline_in_aliases", "inline_allof", "shared_body_models", "decorations", "shared_components", "no_operation_id", "long_paths", "coinciding_enums", "http_header_names", "titles",
+    "cookie_params", "shared_paths", "inline_response_objects", "shuffle_decl", "media_type_params", "item_level_name_clash", "multi_media_responses", "wrapped_refs", "rich_form_fields", "reserved_param_names", "python_name_clash", "noise_responses", "trailing_slash_paths", "prefix_names", "inline_in_aliases", "inline_allof", "shared_body_models", "decorations", "shared_components", "no_operation_id", "long_paths", "coinciding_enums", "http_header_names", "titles", "embedded_placeholders",
 ]
 
 PROP_VOCAB = [
@@ -749,7 +749,11 @@ class DocGen:
             for pn in pnames:
                 if r.random() < 0.4:
                     segs.append(self.token())
-                segs.append("{" + pn + "}")
+                if self.on("embedded_placeholders") and r.random() < 0.3:
+                    # a placeholder that is only PART of its segment: /files/{name}.json, /v{major}, /{id}:cancel
+                    segs.append(r.choice(["id-{%s}", "{%s}.json", "{%s}:act", "v{%s}"]) % pn)
+                else:
+                    segs.append("{" + pn + "}")
             if r.random() < 0.3:
                 segs.append(self.token())
             if self.on("long_paths") and r.random() < 0.15:
